@@ -150,6 +150,8 @@ def run_history_prop(ctx):
         cmd = [_itv(ctx, prof), "run", "--prop", prop, "--tier", tier, "--seed", str(seed), "--build", b, "--out", part, "--digests", dig]
         if payload:
             cmd += ["--payload", payload]
+        if tier != "thorough" and b == "dbg":
+            cmd += ["--no-big"]  # quick: the > 65 536-slot histories run in the release build only
         if exclude:
             cmd += ["--exclude", ",".join(exclude)]
         rc, out, dt = ctx["sh"](cmd, timeout=6 * 3600)
@@ -159,10 +161,10 @@ def run_history_prop(ctx):
             m = re.search(r"HANG property=\S+ replay=(\S+)", out)
             path = m.group(1) if m else ""
             cmd2 = [_itv(ctx, prof), "replay", "--prop", prop, "--file", path, "--any-sig"] + (["--payload", payload] if payload else [])
-            rc2, out2, _ = ctx["sh"](cmd2, timeout=240)
+            rc2, out2, _ = ctx["sh"](cmd2, timeout=150)
             if rc2 == 124:
                 if prop == "C02":
-                    res["violations"].append((path, f"[{tag} build] a call of this history does not return (confirmed twice: > 90 s and > 240 s; normally milliseconds)"))
+                    res["violations"].append((path, f"[{tag} build] a call of this history does not return (confirmed twice: > 60 s and > 150 s; normally milliseconds)"))
                 else:
                     res["inconclusive"] = f"a case hangs ({path}); a call that does not return is judged by the C02 check"
             elif rc2 == 1 and "REPLAY-FAILS" in out2:
@@ -201,12 +203,21 @@ def run_history_prop(ctx):
         if note:
             res["output"] += note + "\n"
     # debug and release builds must agree on every history (C05: "in debug and release builds alike")
-    if prop == "C05" and not res["violations"] and len(digests) == 2 and digests["dbg"] != digests["rel"]:
-        d1, d2 = digests["dbg"], digests["rel"]
-        idx = next((i for i in range(min(len(d1), len(d2))) if d1[i] != d2[i]), min(len(d1), len(d2)))
-        case = int(d1[idx].split()[0]) if idx < len(d1) else -1
+    def _dmap(lines):
+        return {int(l.split()[0]): l.split()[1] for l in lines if l.strip()}
+
+    differing = []
+    if prop == "C05" and not res["violations"] and len(digests) == 2:
+        d1, d2 = _dmap(digests["dbg"]), _dmap(digests["rel"])
+        # compare the histories both builds executed (the big-arena sub-run is release-only in quick)
+        differing = sorted(k for k in d1.keys() & d2.keys() if d1[k] != d2[k])
+    if differing:
+        case = differing[0]
         worker, ci = case >> 32, case & 0xFFFFFFFF
-        rc, out, _ = ctx["sh"]([_itv(ctx, "vdbg"), "emit", "--prop", prop, "--seed", str(seed), "--worker", str(worker), "--case", str(ci)], timeout=600)
+        if worker < 1000:
+            rc, out, _ = ctx["sh"]([_itv(ctx, "vdbg"), "emit", "--prop", prop, "--seed", str(seed), "--worker", str(worker), "--case", str(ci)], timeout=600)
+        else:
+            out = "[]"  # long / big-arena sub-runs use derived seeds and profiles: only the case index is reported
         os.makedirs(os.path.join(ctx["VERIF"], "replays", prop), exist_ok=True)
         path = os.path.join(ctx["VERIF"], "replays", prop, f"dbg-vs-rel-{worker}-{ci}.json")
         try:
